@@ -162,6 +162,32 @@ def generate_instances(classes: dict[str, type], pool: Pool) -> list[tuple[str, 
     return out
 
 
+def random_instance(cls, pool: Pool, rng):
+    """One instance of a dataclass-like class with every argument shape and every non-SymPy attribute drawn
+    independently (shape label 'random')."""
+    args = []
+    for fi, f in enumerate(sympy_fields(cls)):
+        sh = SHAPES[int(rng.integers(len(SHAPES)))]
+        k = int(rng.integers(0, 12))
+        if f.name in ARRAY_FIELDS:
+            args.append(pool.array(sh, k))
+        elif f.name in SIZE_FIELDS:
+            args.append(pool.size(sh, k))
+        elif f.name in INT_FIELDS:
+            args.append(pool.integer(sh, k))
+        else:
+            args.append(pool.scalar(sh, k))
+    kwargs = {}
+    for f in non_sympy_fields(cls):
+        if rng.uniform() < 0.25:
+            continue  # leave the default
+        if f.name == "phsp_factor":
+            kwargs[f.name] = pool.phsp[int(rng.integers(len(pool.phsp)))]
+        elif f.name == "name":
+            kwargs[f.name] = [None, "custom", R"\tilde{n}", R"\Gamma_1"][int(rng.integers(4))]
+    return cls(*args, **kwargs)
+
+
 def helper_instances(pool: Pool) -> list[tuple[str, str, sp.Basic]]:
     """Hand-built instances of the helper classes that are not dataclass-like."""
     from ampform.sympy import PoolSum, UnevaluatableIntegral  # noqa: PLC0415
